@@ -70,6 +70,7 @@ def build(name=DEFAULT_BUILD):
     t0 = time.time()
     env = dict(os.environ)
     env["CARGO_NET_OFFLINE"] = "true"
+    env.setdefault("RUST_MIN_STACK", "67108864")
     r = subprocess.run(cmd, cwd=HARNESS, capture_output=True, text=True, env=env)
     if r.returncode != 0:
         raise ToolError(f"cargo build failed for {name}:\n" + r.stderr[-6000:])
